@@ -4,20 +4,166 @@
 //!   dmfmt <b>     DataMapChunk(Chunk(b)).to_hex() -> <s>
 //!   addr <s>      str_to_addr              -> ok <b32> | err | panic
 //!   addrfmt <b32> addr_to_str(XorName)     -> <s>
+//!   walletdir <n>…  wallet/fs.rs `get_wallet_files` on a fresh directory holding files with these names
+//!                 (<n> = common::hex of the raw file-name bytes, may be non-UTF-8) -> ok <positions listed, in op order> | err | panic
+//!   walletsel <s> <n>…  `get_wallet_selection(files)` with <s> typed at the "Select by index" prompt -> ok <cleaned name> | err | panic
+//!   loadkey <s> <plain|enc|both|none> <b>  `load_private_key(address)` with that file / `.encrypted` file holding <b>
+//!                 (encrypted content is kept shorter than salt+nonce or non-hex, so no KDF runs) -> ok <b> | err | panic
+//!   loadwallet <s> <plain|enc|both|none> <b> <key>  `load_wallet_from_address(address)` (EVM_NETWORK is set to a named network by the
+//!                 harness, so the configuration `expect` cannot fire); key = na | bad | ok:<address>: what
+//!                 `Wallet::new_from_private_key` says about the file content (called directly) -> ok <address> | err | panic
+//! ant-cli is a bin-only crate: wallet/fs.rs, encryption.rs, error.rs are compiled in from /repo with include!/#[path];
+//! the prompts (`wallet::input`) and the env wallet (`keys`) are shims.
 use autonomi::client::address::{addr_to_str, str_to_addr};
 use autonomi::client::data::DataMapChunk;
 use common::{hex, unhex, Out, Rng};
-use std::panic::catch_unwind;
+use std::os::unix::ffi::OsStrExt;
+use std::panic::{catch_unwind, AssertUnwindSafe};
 use xor_name::XorName;
+
+#[allow(dead_code)]
+mod keys {
+    /// shim of ant-cli's `access::keys::load_evm_wallet_from_env`: no wallet in the environment
+    pub fn load_evm_wallet_from_env() -> Result<autonomi::Wallet, ()> {
+        Err(())
+    }
+}
+#[allow(dead_code, unused_imports)]
+mod wallet {
+    pub const DUMMY_NETWORK: autonomi::Network = autonomi::Network::ArbitrumSepolia;
+    #[path = "/repo/ant-cli/src/wallet/error.rs"]
+    pub mod error;
+    #[path = "/repo/ant-cli/src/wallet/encryption.rs"]
+    pub mod encryption;
+    /// shim of the interactive prompts: the harness supplies what the user would type
+    pub mod input {
+        use std::sync::Mutex;
+        pub static SELECTION: Mutex<String> = Mutex::new(String::new());
+        pub static PASSWORD: Mutex<String> = Mutex::new(String::new());
+        pub fn get_wallet_selection_input(_prompt: &str) -> String {
+            SELECTION.lock().map(|s| s.clone()).unwrap_or_default()
+        }
+        pub fn get_password_input(_prompt: &str) -> String {
+            PASSWORD.lock().map(|s| s.clone()).unwrap_or_default()
+        }
+    }
+    pub mod fs {
+        include!("/repo/ant-cli/src/wallet/fs.rs");
+        // pass-through access to the private helpers (harness side only; /repo is untouched)
+        pub fn verif_get_wallet_files(dir: &PathBuf) -> Result<Vec<String>, Error> {
+            get_wallet_files(dir)
+        }
+        pub fn verif_get_wallet_selection(files: Vec<String>) -> Result<String, Error> {
+            get_wallet_selection(files)
+        }
+        pub fn verif_filter_wallet_file_extension(name: &str) -> String {
+            filter_wallet_file_extension(name)
+        }
+    }
+}
+
+fn valid_file_name(n: &[u8]) -> bool {
+    !n.is_empty() && n.len() <= 255 && n != b"." && n != b".." && !n.contains(&b'/') && !n.contains(&0)
+}
+
+fn fresh_dir(p: &std::path::Path) {
+    let _ = std::fs::remove_dir_all(p);
+    std::fs::create_dir_all(p).expect("create dir");
+}
 
 fn s_of(h: &str) -> Option<String> {
     String::from_utf8(unhex(h)?).ok()
 }
 
-fn exec(line: &str) -> String {
+fn exec(line: &str, tmp: &std::path::Path) -> String {
+    exec_op(line, tmp).1
+}
+
+/// Returns (op line with regenerated third-party verdicts, implementation output).
+fn exec_op(line: &str, tmp: &std::path::Path) -> (String, String) {
     let ws: Vec<&str> = line.split_whitespace().collect();
-    let r = catch_unwind(|| -> String {
+    let mut op = line.to_string();
+    let r = catch_unwind(AssertUnwindSafe(|| -> String {
         match ws.as_slice() {
+            ["walletdir", names @ ..] => {
+                let Some(names) = names.iter().map(|n| unhex(n)).collect::<Option<Vec<Vec<u8>>>>() else { return "bad-op".into() };
+                let distinct: std::collections::BTreeSet<&Vec<u8>> = names.iter().collect();
+                if distinct.len() != names.len() || !names.iter().all(|n| valid_file_name(n)) {
+                    return "bad-op".into();
+                }
+                let dir = tmp.join("listing");
+                fresh_dir(&dir);
+                for n in &names {
+                    if std::fs::write(dir.join(std::ffi::OsStr::from_bytes(n)), b"x").is_err() {
+                        return "bad-op".into();
+                    }
+                }
+                match wallet::fs::verif_get_wallet_files(&dir) {
+                    Ok(listed) => {
+                        let mut idx: Vec<usize> = listed.iter().filter_map(|l| names.iter().position(|n| n == l.as_bytes())).collect();
+                        idx.sort();
+                        if idx.len() != listed.len() {
+                            return "listed-unknown-entry".into();
+                        }
+                        format!("ok {}", if idx.is_empty() { "-".to_string() } else { idx.iter().map(|i| i.to_string()).collect::<Vec<_>>().join(",") })
+                    }
+                    Err(_) => "err".into(),
+                }
+            }
+            ["walletsel", input, names @ ..] => {
+                let Some(input) = s_of(input) else { return "bad-op".into() };
+                let Some(names) = names.iter().map(|n| s_of(n)).collect::<Option<Vec<String>>>() else { return "bad-op".into() };
+                if let Ok(mut g) = wallet::input::SELECTION.lock() {
+                    *g = input;
+                }
+                match wallet::fs::verif_get_wallet_selection(names) {
+                    Ok(a) => format!("ok {}", hex(a.as_bytes())),
+                    Err(_) => "err".into(),
+                }
+            }
+            ["loadkey", addr, kind, content] | ["loadwallet", addr, kind, content, ..] => {
+                let (Some(addr), Some(content)) = (s_of(addr), unhex(content)) else { return "bad-op".into() };
+                if !valid_file_name(addr.as_bytes()) || addr.len() > 240 || !["plain", "enc", "both", "none"].contains(kind) {
+                    return "bad-op".into();
+                }
+                if *kind != "plain" && *kind != "none" {
+                    if let Ok(t) = std::str::from_utf8(&content) {
+                        if hex::decode(t).map(|d| d.len() >= 20).unwrap_or(false) {
+                            return "bad-op".into(); // would reach the KDF; decrypt_private_key is driven by hlight's `decrypt`
+                        }
+                    }
+                }
+                // get_client_wallet_dir_path() = $XDG_DATA_HOME/autonomi/client/wallets
+                let dir = tmp.join("data").join("autonomi").join("client").join("wallets");
+                fresh_dir(&dir);
+                if *kind == "plain" || *kind == "both" {
+                    std::fs::write(dir.join(&addr), &content).expect("write");
+                }
+                if *kind == "enc" || *kind == "both" {
+                    std::fs::write(dir.join(format!("{addr}.encrypted")), &content).expect("write");
+                }
+                if let Ok(mut g) = wallet::input::PASSWORD.lock() {
+                    *g = "pw".into();
+                }
+                if ws[0] == "loadwallet" {
+                    let verdict = match std::str::from_utf8(&content) {
+                        Ok(t) => match autonomi::Wallet::new_from_private_key(wallet::DUMMY_NETWORK, t) {
+                            Ok(w) => format!("ok:{}", w.address()),
+                            Err(_) => "bad".to_string(),
+                        },
+                        Err(_) => "na".to_string(),
+                    };
+                    op = format!("loadwallet {} {kind} {} {verdict}", ws[1], ws[3]);
+                    return match wallet::fs::load_wallet_from_address(&addr) {
+                        Ok(w) => format!("ok {}", w.address()),
+                        Err(_) => "err".into(),
+                    };
+                }
+                match wallet::fs::load_private_key(&addr) {
+                    Ok(k) => format!("ok {}", hex(k.as_bytes())),
+                    Err(_) => "err".into(),
+                }
+            }
             ["dmhex", h] => {
                 let Some(s) = s_of(h) else { return "bad-op".into() };
                 match DataMapChunk::from_hex(&s) {
@@ -44,25 +190,61 @@ fn exec(line: &str) -> String {
             }
             _ => "bad-op".into(),
         }
-    });
-    r.unwrap_or_else(|_| "panic".into())
+    }));
+    (op, r.unwrap_or_else(|_| "panic".into()))
 }
 
-fn oracle(line: &str, res: &str, out: &mut Out) {
+fn is_wallet_name(n: &[u8]) -> bool {
+    // `0x` + 40 hex digits, optionally followed by `.encrypted`
+    let core = n.strip_suffix(b".encrypted").unwrap_or(n);
+    core.len() == 42 && core.starts_with(b"0x") && core[2..].iter().all(|c| c.is_ascii_hexdigit())
+}
+
+fn oracle(line: &str, res: &str, out: &mut Out, tmp: &std::path::Path) {
     if res == "panic" {
         out.oracle_fail("no-panic", line, "the routine panicked (caught by catch_unwind)");
         return;
     }
     let ws: Vec<&str> = line.split_whitespace().collect();
     match ws.as_slice() {
+        ["walletdir", names @ ..] if res.starts_with("ok") => {
+            // every `0x`+40 hex (+`.encrypted`) entry is listed; nothing is listed whose name, with the
+            // extension text removed, is not 40 hex digits with an optional `0x`
+            let listed: Vec<usize> = res[2..].trim().split(',').filter_map(|x| x.parse().ok()).collect();
+            for (i, n) in names.iter().enumerate() {
+                let bytes = unhex(n).unwrap_or_default();
+                let is_listed = listed.contains(&i);
+                if is_wallet_name(&bytes) && !is_listed {
+                    out.oracle_fail("listing-complete", line, &format!("wallet file {:?} is not listed", String::from_utf8_lossy(&bytes)));
+                }
+                if is_listed {
+                    let cleaned = String::from_utf8_lossy(&bytes).replace(".encrypted", "");
+                    let core = cleaned.strip_prefix("0x").unwrap_or(&cleaned);
+                    if !(core.len() == 40 && core.bytes().all(|c| c.is_ascii_hexdigit())) {
+                        out.oracle_fail("listing-sound", line, &format!("{:?} is listed but is not a wallet address file", String::from_utf8_lossy(&bytes)));
+                    }
+                }
+            }
+        }
+        ["loadwallet", _, kind, content, ..] => {
+            // a wallet is returned only for a plain file whose content is a secp256k1 private key: 64 hex digits
+            // (optional 0x), not zero — stated without the wallet library
+            let c = unhex(content).unwrap_or_default();
+            let t = String::from_utf8_lossy(&c).to_string();
+            let h = t.strip_prefix("0x").unwrap_or(&t);
+            let looks_like_key = h.len() == 64 && h.bytes().all(|b| b.is_ascii_hexdigit()) && h.bytes().any(|b| b != b'0');
+            if res.starts_with("ok") && !(looks_like_key && (*kind == "plain" || *kind == "both")) {
+                out.oracle_fail("wallet-key-sound", line, &format!("a wallet was loaded from a file that does not hold a private key: {t:?}"));
+            }
+        }
         ["dmfmt", b] => {
-            let back = exec(&format!("dmhex {res}"));
+            let back = exec(&format!("dmhex {res}"), tmp);
             if back != format!("ok {b}") {
                 out.oracle_fail("roundtrip", line, &format!("DataMapChunk::from_hex(to_hex(d)) = {back}"));
             }
         }
         ["addrfmt", b] => {
-            let back = exec(&format!("addr {res}"));
+            let back = exec(&format!("addr {res}"), tmp);
             if back != format!("ok {b}") {
                 out.oracle_fail("roundtrip", line, &format!("str_to_addr(addr_to_str(x)) = {back}"));
             }
@@ -98,6 +280,25 @@ fn mutate(rng: &mut Rng, s: &str) -> String {
 
 /// Install a TRACE-level subscriber that really formats every event (into a sink), so that the
 /// `Display`/`Debug` impls reached from the parsers' log statements are executed under `catch_unwind`.
+/// "Long non-ASCII" family: strings of `fill` with one 2-, 3- or 4-byte char starting at every byte
+/// offset 0..=max, once near the end of the string and once followed by padding up to `max` bytes
+/// (slicing a &str at a fixed byte offset is the typical slip; it only fails inside such a char).
+fn non_ascii_sweep(fill: char, max: usize) -> Vec<String> {
+    let mut v = vec![];
+    for off in 0..=max {
+        for ch in ['é', '€', '😀'] {
+            let head: String = std::iter::repeat(fill).take(off).collect();
+            v.push(format!("{head}{ch}{fill}"));
+            let used = off + ch.len_utf8();
+            if used + 1 < max {
+                let tail: String = std::iter::repeat(fill).take(max - used).collect();
+                v.push(format!("{head}{ch}{tail}"));
+            }
+        }
+    }
+    v
+}
+
 fn install_formatting_subscriber() {
     let _ = tracing_subscriber::fmt()
         .with_max_level(tracing::Level::TRACE)
@@ -110,6 +311,15 @@ fn main() {
     let mut out = Out::new(&args.out);
     std::panic::set_hook(Box::new(|_| {}));
     install_formatting_subscriber();
+    let tmpdir = tempfile::tempdir().expect("tempdir");
+    let tmp = tmpdir.path();
+    // dirs_next::data_dir() on Linux: wallet/fs.rs then works under <tmp>/data/autonomi/client/wallets
+    std::env::set_var("XDG_DATA_HOME", tmp.join("data"));
+    // load_wallet_from_address `expect`s an EVM network from the environment (configuration, not stored text)
+    std::env::set_var("EVM_NETWORK", "arbitrum-sepolia");
+    for k in ["RPC_URL", "PAYMENT_TOKEN_ADDRESS", "DATA_PAYMENTS_ADDRESS"] {
+        std::env::remove_var(k);
+    }
     let lines: Vec<String> = if let Some(p) = &args.replay {
         common::read_lines(p)
     } else {
@@ -125,8 +335,135 @@ fn main() {
             }
             v.push(format!("dmhex {}", hx(&s)));
         }
+        // wallets folder listings: past failures first (stray short names, a multi-byte char across byte 42)
+        let a1 = format!("0x{}", hex::encode(rng.bytes(20)));
+        let a2 = format!("0x{}", hex::encode(rng.bytes(20)).to_uppercase());
+        v.push(format!("walletdir {}", hx(".DS_Store")));
+        v.push(format!("walletdir {} {}", hx("notes.txt"), hx(&a1)));
+        v.push(format!("walletdir {} {} {}", hx(&a1), hx(&format!("{a2}.encrypted")), hx(&format!("{}é{}", "a".repeat(41), "b".repeat(5)))));
+        v.push("walletdir".to_string());
+        v.push(format!("walletdir {} fffe {}", hx(&a1[2..]), hex(&[b'0', b'x', 0xff, 0xfe])));
+        v.push(format!("walletsel {} {} {}", hx("1"), hx(&a1), hx(&format!("{a2}.encrypted"))));
+        v.push(format!("walletsel {} {}", hx("0"), hx(&a1)));
+        v.push(format!("walletsel {} {}", hx("2"), hx(&a1)));
+        v.push(format!("walletsel {} {}", hx("18446744073709551615"), hx(&a1)));
+        v.push(format!("loadkey {} plain {}", hx(&a1), hex(b"abcd")));
+        v.push(format!("loadkey {} plain fffe", hx(&a1)));
+        v.push(format!("loadkey {} enc {}", hx(&a1), hex(b"00ff")));
+        v.push(format!("loadkey {} both {}", hx(&a1), hex(b"00ff")));
+        v.push(format!("loadkey {} none -", hx(&a1)));
+        // wallet file contents: garbage first (expect() on the key panicked before the fix), then valid / edge contents
+        let key = hex::encode(rng.bytes(32));
+        v.push(format!("loadwallet {} plain {} x", hx(&a1), hx("not-a-private-key")));
+        v.push(format!("loadwallet {} plain - x", hx(&a1)));
+        v.push(format!("loadwallet {} plain {} x", hx(&a1), hx(&key)));
+        v.push(format!("loadwallet {} plain {} x", hx(&a1), hx(&format!("0x{key}"))));
+        v.push(format!("loadwallet {} plain {} x", hx(&a1), hx(&key.to_uppercase())));
+        v.push(format!("loadwallet {} plain {} x", hx(&a1), hx(&format!("{key}\n"))));
+        v.push(format!("loadwallet {} plain {} x", hx(&a1), hx(&"0".repeat(64))));
+        v.push(format!("loadwallet {} plain {} x", hx(&a1), hx(&"f".repeat(64))));
+        v.push(format!("loadwallet {} plain fffe x", hx(&a1)));
+        v.push(format!("loadwallet {} both {} x", hx(&a1), hx("00ff")));
+        v.push(format!("loadwallet {} enc {} x", hx(&a1), hx("00ff")));
+        v.push(format!("loadwallet {} none - x", hx(&a1)));
+        for len in [1usize, 2, 31, 62, 63, 65, 66, 67, 128] {
+            let k: String = key.chars().cycle().take(len).collect();
+            v.push(format!("loadwallet {} plain {} x", hx(&a1), hx(&k)));
+        }
+        for t in non_ascii_sweep('a', 70) {
+            v.push(format!("loadwallet {} plain {} x", hx(&a1), hx(&t)));
+        }
+        // file names of every length 0..=46 and around the 255-byte limit
+        for len in (1..=46usize).chain([100, 254, 255]) {
+            let n: String = a1.chars().cycle().take(len).collect();
+            v.push(format!("walletdir {}", hx(&n)));
+        }
+        // "long non-ASCII" family: a 2/3/4-byte char at every byte offset of an otherwise plain string
+        for (i, t) in non_ascii_sweep('a', 200).into_iter().enumerate() {
+            v.push(format!("addr {}", hx(&t)));
+            v.push(format!("dmhex {}", hx(&t)));
+            if t.len() <= 255 {
+                v.push(format!("walletdir {}", hx(&t)));
+            }
+            if i % 3 == 0 {
+                v.push(format!("walletsel {} {}", hx(&t), hx(&a1)));
+                v.push(format!("walletsel {} {}", hx("1"), hx(&t)));
+                if t.len() <= 240 {
+                    v.push(format!("loadkey {} plain {}", hx(&t), hex(t.as_bytes())));
+                }
+            }
+        }
+        for t in non_ascii_sweep('0', 60) {
+            // the same family on top of a wallet-like name: `0x000…` with the char inside / right after the address
+            let n = format!("0x{t}");
+            v.push(format!("walletdir {} {}", hx(&n), hx(&format!("{n}.encrypted"))));
+        }
         for _ in 0..args.n {
-            match rng.below(4) {
+            match rng.below(7) {
+                4 | 5 => {
+                    // a wallets folder: real names, `.encrypted` variants, stray files, near-misses, non-UTF-8 names
+                    let k = rng.below(6);
+                    let mut names: Vec<Vec<u8>> = vec![];
+                    for _ in 0..k {
+                        let addr = format!("0x{}", hex::encode(rng.bytes(20)));
+                        let n: Vec<u8> = match rng.below(12) {
+                            0 => addr.into_bytes(),
+                            1 => format!("{addr}.encrypted").into_bytes(),
+                            2 => addr.to_uppercase().replace("0X", "0x").into_bytes(),
+                            3 => addr[2..].as_bytes().to_vec(),
+                            4 => mutate(&mut rng, &addr).into_bytes(),
+                            5 => mutate(&mut rng, &format!("{addr}.encrypted")).into_bytes(),
+                            6 => rng.pick(&[".DS_Store", "notes.txt", "x", "0x", ".encrypted", "0x.encrypted", "Thumbs.db", "wallet.json"]).as_bytes().to_vec(),
+                            7 => format!("{}.encrypted{}", &addr[..10], &addr[10..]).into_bytes(),
+                            8 => format!("{addr}.encrypted.encrypted").into_bytes(),
+                            9 => { let mut b = addr.into_bytes(); let i = rng.below(b.len() as u64) as usize; b[i] = *rng.pick(&[0xffu8, 0x80, 0xc3]); b }
+                            10 => { let cut = rng.below(43) as usize; format!("{}é{}", &addr[..cut], &addr[cut..]).into_bytes() }
+                            _ => { let l = *rng.pick(&[40usize, 41, 42, 43, 44, 52]); addr.chars().cycle().take(l).collect::<String>().into_bytes() }
+                        };
+                        if valid_file_name(&n) && !names.contains(&n) {
+                            names.push(n);
+                        }
+                    }
+                    v.push(format!("walletdir {}", names.iter().map(|n| hex(n)).collect::<Vec<_>>().join(" ")).trim_end().to_string());
+                }
+                6 => {
+                    let addr = format!("0x{}", hex::encode(rng.bytes(20)));
+                    if rng.chance(1, 2) {
+                        let k = 1 + rng.below(3);
+                        let names: Vec<String> = (0..k).map(|i| if i % 2 == 0 { hx(&addr) } else { hx(&format!("{addr}.encrypted")) }).collect();
+                        let input = rng.pick(&["0", "1", "2", "3", "4", "+1", "-1", "", " 1", "1 ", "01", "1.0", "x", "18446744073709551615", "18446744073709551616", "１"]).to_string();
+                        v.push(format!("walletsel {} {}", hx(&input), names.join(" ")));
+                    } else {
+                        let kind = *rng.pick(&["plain", "enc", "both", "none"]);
+                        let content: Vec<u8> = match rng.below(5) {
+                            0 => vec![],
+                            1 => { let l = rng.below(19) as usize; hex::encode(rng.bytes(l)).into_bytes() }
+                            2 => { let l = rng.below(8) as usize; rng.bytes(l) }
+                            3 => "schlüssel".as_bytes().to_vec(),
+                            _ => hex::encode(rng.bytes(32)).into_bytes()[..38].to_vec(),
+                        };
+                        if rng.chance(1, 2) {
+                            v.push(format!("loadkey {} {kind} {}", hx(&addr), hex(&content)));
+                        } else {
+                            let content: Vec<u8> = if rng.chance(1, 2) { content } else {
+                                let k = hex::encode(rng.bytes(32));
+                                match rng.below(5) {
+                                    0 => k.into_bytes(),
+                                    1 => format!("0x{k}").into_bytes(),
+                                    2 => mutate(&mut rng, &k).into_bytes(),
+                                    3 => format!(" {k}").into_bytes(),
+                                    _ => k.to_uppercase().into_bytes(),
+                                }
+                            };
+                            if *"enc" == *kind || *"both" == *kind {
+                                // encrypted contents must stay below salt+nonce (no KDF here)
+                                v.push(format!("loadwallet {} plain {} x", hx(&addr), hex(&content)));
+                            } else {
+                                v.push(format!("loadwallet {} {kind} {} x", hx(&addr), hex(&content)));
+                            }
+                        }
+                    }
+                }
                 0 => {
                     let b = rng.bytes(32);
                     v.push(format!("addrfmt {}", hex(&b)));
@@ -159,8 +496,9 @@ fn main() {
         v
     };
     for l in &lines {
-        let r = exec(l);
-        oracle(l, &r, &mut out);
+        let (op, r) = exec_op(l, tmp);
+        let l = &op;
+        oracle(l, &r, &mut out, tmp);
         let name = l.split_whitespace().next().unwrap_or("");
         let class = if r.starts_with("ok") { "ok" } else if r == "err" || r == "panic" || r == "bad-op" { r.as_str() } else { "value" };
         out.count(&format!("{name}:{class}"));
